@@ -11,10 +11,19 @@ line was handed over; concurrent requests never mix.
    * concurrent configuration: two requests interleaved at the granularity of the shared operations
      (SidExclusive, NoMixing); buffers have identity and are OWNED from the pool Get to the explicit Put step, the
      In call of the final flush is not atomic (the pipeline may copy the bytes later): BufOwned, PendingStable;
+   * the end of the stream is a dimension: io.EOF | io.ErrUnexpectedEOF (with or without data) | another error; only
+     io.EOF ends a body cleanly;
+   * gz configuration: the three-step sequence good gzip request, gzip request with a bad header (Reset of the pooled
+     reader fails), two overlapping gzip requests; the pooled *gzip.Reader objects have identity and an owner
+     (PoolHoldsEachObjectOnce, ReaderIsMine);
+   * gzone / mes configurations: one request x its compressed size (Content-Length), one request x the pipeline's
+     max_event_size: neither changes what is handed over (M_GzipStreamUnbounded, M_CarryUnbounded);
    * spec mutants (carry-over dropped, final flush missing / unconditional, pooled buffer not re-sliced,
-     status before the flush, source id released early, buffers put back before the last In) must each be
-     REJECTED by the invariants; for the last one TLC must also construct the window "another request takes
-     the buffer between the Put and the moment the pending In copies the bytes" from the observable invariants.
+     status before the flush, source id released early, buffers put back before the last In, io.ErrUnexpectedEOF
+     taken for the end of the body, gzip reader put twice, decompressed stream limited by Content-Length, carry-over
+     capped at max_event_size) must each be REJECTED by the invariants; where a window is needed TLC must also
+     construct it from the observable invariants ("another request takes the buffer between the Put and the moment
+     the pending In copies the bytes", "two requests hold the same gzip reader").
 2. Every exported case is replayed on the REAL plugin (real Start with address "off", real ServeHTTP),
    plain and gzip; a seeded family blows the symbols up so that lines cross the real read buffer; a seeded
    family serves requests over disjoint alphabets in parallel on one plugin (with and without a rendezvous
@@ -22,8 +31,15 @@ line was handed over; concurrent requests never mix.
    parks on request A's k-th call (mostly its unterminated last line) BEFORE the bytes are copied, request B (line
    split over two reads, carry-over written into a pooled buffer) is served meanwhile from inside that call, then A's
    In goes on; once with GOMAXPROCS(1), once with the default.  In-calls (bytes as the pipeline would copy them),
-   status and its position are compared with the specification's expectation.
+   status and its position are compared with the specification's expectation.  Every serial case is also run with
+   a REAL truncated gzip payload (cut inside the header / the deflate data / the trailer, never on a member boundary)
+   and a clean transport EOF (a 200 is a violation unless all lines were handed over), and under a pipeline whose
+   max_event_size is below / equal to / above the longest line.  Gzip requests WITH a Content-Length and highly
+   repetitive bodies (ratios 50 .. 1000) must hand over every line.  The gzip sequence is constructed on the real
+   plugin (GC off): good request, bad-header request, a white-box look that the pool does not hand the same
+   *gzip.Reader to two holders, then request A blocked in its first In while B is served.
 """
+import copy
 import json
 import os
 import re
@@ -94,7 +110,8 @@ def build_cases(ctx, exported):
         c = rng.choice(cand)
         gz = 1 if rng.random() < 0.4 else 0
         lines.append({"fam": "long", "id": nid, "reqs": c["reqs"], "scale": rng.choice(scales),
-                      "unlim": rng.random() < 0.5, "gz": gz, "trunc": bool(gz and rng.random() < 0.4)})
+                      "unlim": rng.random() < 0.5, "gz": gz, "trunc": bool(gz and rng.random() < 0.4),
+                      "mes": rng.choice([0, 0, 1, 2, 3, 4])})
         nid += 1
     # ---- compressibility and Content-Length: gzip requests WITH a Content-Length whose highly repetitive body inflates
     #      about 50 / 99 / 100 / 101 / 150 / 300 / 1000 times (0: as much as it gets), one member and multi-member
@@ -195,70 +212,85 @@ def tlc_ok(ctx, *a, **kw):
 def run(ctx):
     quick = ctx.tier == "quick"
     cfg = "HttpChunk_quick.cfg" if quick else "HttpChunk_thorough.cfg"
-    res = tlc_ok(ctx, "HttpChunk", cfg, timeout=300 if quick else 2400, deadlock=False, seed=ctx.seed)
-    exported = res.printed
-    if len(exported) < 10000:
-        raise vlib.Infra("TLC exported only %d cases" % len(exported))
-    n_exported = len(exported)
-    # side runs (concurrent configuration, spec mutants) in ONE background thread while the harness is built and run
-    # (the main thread does not use ctx.tlc meanwhile)
-    side = {"killed": [], "conc": None, "gz": None, "gzone": None, "exc": None}
+    # Side runs (the other configurations, the spec mutants) in three background lanes while the harness is built and
+    # run.  vlib.Ctx.tlc numbers its run directories with a plain counter, so every lane works on its own shallow copy
+    # of the context with a disjoint counter range (same scratch dir, same tlc_runs list: list.append is atomic); the
+    # state counts of the copies are added to the context after the join.
+    side = {"killed": [], "conc": None, "exc": None}
 
-    def side_runs():
-        try:
-            side["conc"] = tlc_ok(ctx, "HttpChunk", "HttpChunk_conc.cfg", timeout=300 if quick else 1200, deadlock=False,
-                                  seed=ctx.seed, workers=8, overrides=None if quick else {"ConcLen": "3"})
-            for mut, mode in SPEC_MUTANTS:
-                r = ctx.tlc("HttpChunk", "HttpChunk_mutant.cfg", timeout=300, deadlock=False, workers=4,
-                            overrides={"Mutant": '"%s"' % mut, "Mode": '"%s"' % mode}, name="spec-mutant/%s" % mut)
-                if r.ok or r.kind != "invariant":
-                    raise vlib.Infra("spec mutant %s is not rejected by the invariants (%s/%s): the specification "
-                                     "lost its discriminating power" % (mut, r.violated, r.kind))
-                side["killed"].append("%s->%s" % (mut, r.violated))
-            # the same mechanism switch against the OBSERVABLE invariants only, two interleaved requests: TLC must
-            # construct the window (B takes the buffer between A's Put and A's last In copying the bytes)
-            r = ctx.tlc("HttpChunk", "HttpChunk_mutobs.cfg", timeout=300, deadlock=False, workers=4,
-                        name="spec-mutant/put_before_last_in(observable,conc)")
-            if r.ok or r.kind != "invariant":
-                raise vlib.Infra("spec mutant put_before_last_in is not rejected by the observable invariants (%s/%s)"
-                                 % (r.violated, r.kind))
-            if not window_in_trace(r.trace):
-                raise vlib.Infra("counterexample of put_before_last_in does not show the hand-over window:\n%s" % r.out[-3000:])
-            side["killed"].append("put_before_last_in(conc,observable)->%s[window: other request holds the buffer of a pending In]" % r.violated)
-            # gzip reader pool: the faithful three-step sequence, and the double-put switch against the observable invariants
-            side["gz"] = tlc_ok(ctx, "HttpChunk", "HttpChunk_gz.cfg", timeout=300 if quick else 1200, deadlock=False,
-                                seed=ctx.seed, workers=8, overrides={"GzLen": "1" if quick else "2"})
-            r = ctx.tlc("HttpChunk", "HttpChunk_gzobs.cfg", timeout=300, deadlock=False, workers=4,
-                        name="spec-mutant/gz_double_put(observable,gz)")
-            if r.ok or r.kind != "invariant":
-                raise vlib.Infra("spec mutant gz_double_put is not rejected by the observable invariants (%s/%s)" % (r.violated, r.kind))
-            if not shared_reader_in_trace(r.trace):
-                raise vlib.Infra("counterexample of gz_double_put does not show two requests holding one reader:\n%s" % r.out[-3000:])
-            side["killed"].append("gz_double_put(gz,observable)->%s[two requests hold the same gzip reader]" % r.violated)
-            # compressed size / Content-Length as a dimension: the whole decompressed body whatever the ratio
-            side["gzone"] = tlc_ok(ctx, "HttpChunk", "HttpChunk_gzone.cfg", timeout=300, deadlock=False, seed=ctx.seed,
-                                   workers=8, overrides={"GzLen": "4" if quick else "5"})
-            r = ctx.tlc("HttpChunk", "HttpChunk_gzone.cfg", timeout=300, deadlock=False, workers=4,
-                        overrides={"Mutant": '"gz_limit_clean_eof"'}, name="spec-mutant/gz_limit_clean_eof")
-            if r.ok or r.kind != "invariant" or r.violated not in ("LinesExact", "OKOnlyAfterAllLines"):
-                raise vlib.Infra("spec mutant gz_limit_clean_eof is not rejected by LinesExact / OKOnlyAfterAllLines (%s/%s)"
-                                 % (r.violated, r.kind))
-            side["killed"].append("gz_limit_clean_eof->%s" % r.violated)
-        except BaseException as e:  # re-raised in the main thread
-            side["exc"] = e
+    def expect_rejected(c, cfg, name, overrides=None, by=None):
+        r = c.tlc("HttpChunk", cfg, timeout=300, deadlock=False, workers=4, overrides=overrides, name="spec-mutant/" + name)
+        if r.ok or r.kind != "invariant" or (by and r.violated not in by):
+            raise vlib.Infra("spec mutant %s is not rejected by %s (%s/%s): the specification lost its discriminating "
+                             "power" % (name, " / ".join(by) if by else "the invariants", r.violated, r.kind))
+        return r
 
-    th = None
+    def lane_conc(c):
+        side["conc"] = tlc_ok(c, "HttpChunk", "HttpChunk_conc.cfg", timeout=300 if quick else 1200, deadlock=False,
+                              seed=ctx.seed, workers=8, overrides=None if quick else {"ConcLen": "3"})
+
+    def lane_mutants(c):
+        for mut, mode in SPEC_MUTANTS:
+            r = expect_rejected(c, "HttpChunk_mutant.cfg", mut, {"Mutant": '"%s"' % mut, "Mode": '"%s"' % mode})
+            side["killed"].append("%s->%s" % (mut, r.violated))
+
+    def lane_modes(c):
+        # mechanism M_PutAfterLastIn off against the OBSERVABLE invariants only, two interleaved requests: TLC must
+        # construct the window (B takes the buffer between A's Put and A's last In copying the bytes)
+        r = expect_rejected(c, "HttpChunk_mutobs.cfg", "put_before_last_in(observable,conc)")
+        if not window_in_trace(r.trace):
+            raise vlib.Infra("counterexample of put_before_last_in does not show the hand-over window:\n%s" % r.out[-3000:])
+        side["killed"].append("put_before_last_in(conc,observable)->%s[window: other request holds the buffer of a pending In]" % r.violated)
+        # gzip reader pool: the faithful three-step sequence, and the double-put switch against the observable invariants
+        tlc_ok(c, "HttpChunk", "HttpChunk_gz.cfg", timeout=300 if quick else 1200, deadlock=False, seed=ctx.seed, workers=8,
+               overrides={"GzLen": "1" if quick else "2"})
+        r = expect_rejected(c, "HttpChunk_gzobs.cfg", "gz_double_put(observable,gz)")
+        if not shared_reader_in_trace(r.trace):
+            raise vlib.Infra("counterexample of gz_double_put does not show two requests holding one reader:\n%s" % r.out[-3000:])
+        side["killed"].append("gz_double_put(gz,observable)->%s[two requests hold the same gzip reader]" % r.violated)
+        # compressed size / Content-Length as a dimension: the whole decompressed body whatever the ratio
+        # (M_GzipStreamUnbounded; the switch needs bodies longer than 2 x their compressed size: gzone configuration)
+        tlc_ok(c, "HttpChunk", "HttpChunk_gzone.cfg", timeout=300, deadlock=False, seed=ctx.seed, workers=8,
+               overrides={"GzLen": "4" if quick else "5"})
+        r = expect_rejected(c, "HttpChunk_gzone.cfg", "gz_limit_clean_eof", {"Mutant": '"gz_limit_clean_eof"'},
+                            by=("LinesExact", "OKOnlyAfterAllLines"))
+        side["killed"].append("gz_limit_clean_eof->%s" % r.violated)
+        # the pipeline's max_event_size as a dimension: the bytes handed to In are the line's bytes whatever it is
+        # (M_CarryUnbounded)
+        tlc_ok(c, "HttpChunk", "HttpChunk_mes.cfg", timeout=300, deadlock=False, seed=ctx.seed, workers=8,
+               overrides={"MaxLen": "4" if quick else "5"})
+        r = expect_rejected(c, "HttpChunk_mesobs.cfg", "carry_capped(LinesExact only)", by=("LinesExact",))
+        side["killed"].append("carry_capped->%s" % r.violated)
+
+    lanes = []
     if not ctx.replay:
-        th = threading.Thread(target=side_runs)
-        th.start()
+        for n, fn in enumerate((lane_conc, lane_mutants, lane_modes)):
+            c = copy.copy(ctx)
+            c._n, c.states, c.transitions = 1000 * (n + 1), 0, 0
+
+            def work(fn=fn, c=c):
+                try:
+                    fn(c)
+                except BaseException as e:  # re-raised in the main thread
+                    side["exc"] = side["exc"] or e
+            t = threading.Thread(target=work)
+            t.start()
+            lanes.append((t, c))
     try:
+        res = tlc_ok(ctx, "HttpChunk", cfg, timeout=300 if quick else 2400, deadlock=False, seed=ctx.seed)
+        exported = res.printed
+        if len(exported) < 10000:
+            raise vlib.Infra("TLC exported only %d cases" % len(exported))
+        n_exported = len(exported)
         r, lines = replay_cases(ctx, exported, quick)
     finally:
-        if th:
-            th.join()
+        for t, c in lanes:
+            t.join()
+            ctx.states += c.states
+            ctx.transitions += c.transitions
     if side["exc"] is not None:
         raise side["exc"]
-    killed, conc = side["killed"], side["conc"]
+    killed, conc = sorted(side["killed"]), side["conc"]
     evaluate(ctx, r, lines, n_exported, killed, conc)
 
 
@@ -304,6 +336,9 @@ def evaluate(ctx, r, lines, n_exported, killed, conc):
                st["ratio_requests_multi_member"]) == 0 or \
                 st["ratio_requests_inflating_more_than_100_times"] <= st["ratio_requests_inflating_more_than_300_times"]:
             raise vlib.Infra("gzip requests with a Content-Length were not exercised at ratios below 100, between 100 and 300 and above")
+        if min(st["requests_with_over_limit_line_crossing_a_read_boundary"], st["requests_with_max_event_size_equal_to_their_longest_line"],
+               st["requests_with_max_event_size_above_their_longest_line"]) == 0:
+            raise vlib.Infra("max_event_size below / equal to / above the longest line was not exercised")
         if st["gate_pool_handover_probe_hits"] == 0:
             raise vlib.Infra("a sync.Pool Put made inside the blocked In never reached the Get of the request served meanwhile")
 
@@ -331,7 +366,8 @@ def evaluate(ctx, r, lines, n_exported, killed, conc):
         vlib.log("note: a rendezvous of concurrent requests inside Read was not reached (%d)" % st["conc_barrier_timeouts"])
     ctx.rule = ("case = 1-2 successive requests, each (body over {a,\\r,\\n} up to the length bound, split of the body "
                 "into reads, end flavour (n,EOF)|(n,nil)+(0,EOF)|(0,err)|(0,ErrUnexpectedEOF)|(n,ErrUnexpectedEOF), optional (0,nil) reads), enumerated exhaustively by "
-                "TLC (%d cases); ALL of them replayed on the real plugin (Start address=off, ServeHTTP) plain, gzip and gzip with the payload cut short (header / deflate data / trailer), plus "
+                "TLC (%d cases); ALL of them replayed on the real plugin (Start address=off, ServeHTTP) plain, gzip and gzip with the payload cut short (header / deflate data / trailer), "
+                "and again under a pipeline with max_event_size below / equal to / above the longest line (%d requests), plus "
                 "%d gzip requests WITH a Content-Length and a highly repetitive body (ratios 50..1000, up to %d bytes, max ratio %d), "
                 "%d seeded long-line derivations (symbols blown up to runs around the real read-buffer size) and %d seeded "
                 "concurrent rounds (2/4/8 parallel requests over disjoint alphabets, half of them with a rendezvous inside "
@@ -339,13 +375,14 @@ def evaluate(ctx, r, lines, n_exported, killed, conc):
                 "the bytes are copied while request B with a line split over two reads is served; GOMAXPROCS 1 and default; %d of them are gzip sequences: good gzip request, request with a bad gzip header, "
                 "then two overlapping gzip requests, GC off, with a white-box look that the pool holds no *gzip.Reader twice). "
                 "Non-trivial = serial cases in which a line crosses a read boundary (counted by the harness)."
-                % (n_exported, st["ratio_requests_with_content_length"], st["ratio_decompressed_bytes_max"], st["ratio_max"], st["long_cases"], st["conc_cases"], st["gate_cases"], st["gzseq_runs"] // 2))
+                % (n_exported, st["requests_with_max_event_size_set"], st["ratio_requests_with_content_length"], st["ratio_decompressed_bytes_max"], st["ratio_max"], st["long_cases"], st["conc_cases"], st["gate_cases"], st["gzseq_runs"] // 2))
     for c in lines[:2] + [c for c in lines if c["fam"] == "long"][:1] + [c for c in lines if c["fam"] == "conc"][:1]:
         ctx.sample(c)
     ctx.assumptions += [
         "the body is what the transport delivers before io.EOF; a non-EOF reader error means the body is incomplete (a 200 is a violation then; the lines handed over before the error are not judged)",
         "lines are split on \\n only (\\r is an ordinary byte); empty lines are events (the pipeline's admission refuses them later)",
         "concurrent requests are attributed to bodies by disjoint alphabets; empty events only by their total number",
+        "max_event_size is enforced by Pipeline.In (drop or cut, and count); the recording controller receives what the plugin hands over, so the expectation does not depend on it",
         "controller.In may block before it copies the bytes (Pipeline.In waits for a free event first): the slice must stay intact until In returns",
         "HTTP/1.1 framing (chunked transfer, Content-Length) is net/http's business: the harness starts at ServeHTTP (Request.ContentLength and the header are set by hand where a case announces a length)",
         "the expectation of a blown-up body (symbols -> runs, terminated lines repeated) is the spec's expectation blown up the same way",
@@ -355,7 +392,7 @@ def evaluate(ctx, r, lines, n_exported, killed, conc):
         recs.append({"kind": m["kind"], "fam": m["fam"], "variant": m["variant"], "detail": m.get("detail", ""),
                      "req": m["req"], "end": m["end"], "status": m["status"], "status_at": m["status_at"],
                      "ncalls": m["ncalls"], "want": m.get("want"), "got": m.get("got"), "panic": m.get("panic", ""),
-                     "cfg": m["cfg"], "repro_on_fresh_plugin": m.get("repro_on_fresh_plugin"), "case": m["case"]})
+                     "cfg": m["cfg"], "max_event_size": m.get("max_event_size", 0), "repro_on_fresh_plugin": m.get("repro_on_fresh_plugin"), "case": m["case"]})
     if r.get("mismatch_classes"):
         vlib.log("mismatches by class: %s" % json.dumps(r["mismatch_classes"], sort_keys=True))
         ctx.extra["mismatch_classes"] = r["mismatch_classes"]
